@@ -4,7 +4,12 @@ Domain : vf.pipeline configurations in the C01/C02 style (Colang 1.0 / 2.x; 1-3 
          order from check / rewrite(v1) / block-or-rewrite(v1) / shipped self check; dialog rails on/off (v2 also the library's
          `llm continuation`); enable_rails_exceptions on/off; v2 rails in config.yml or hand-written; v1 optionally one retrieval
          rail; one custom dialog action on the route `act_llm`) x conversations of 2-3 turns (route + verdict per (rail, turn),
-         mostly accepting).
+         mostly accepting) x THE LLM REPEATS ITSELF: in 12-18% of the generated conversations (nominal weight 2/5) a later turn gets verbatim the LLM message
+         text(s) of the turn before it (turn key `repeat_llm`; the user retries the question, half of the time with the very same user
+         text), so the text an action failed on - or that a rail blocked / approved normally - is checked material of a later turn again,
+         half of the time with a strict verdict (block / rewrite) of one custom output rail there.  In a faulted run the repeating
+         turn gets the text of the same turn of the dry run (FaultSession.message_text), also when the faulted turn ended before the LLM
+         was asked.  14 enumerated conversations of this shape come first.
 Faults : ONE CASE = ONE CONVERSATION x ALL ITS FAULT PLANS.  `prop` first runs the conversation fault-free (the dry run) and
          reads the sequence of fake-action invocations from `Session.trace`; a call site is `[action, turn, j]` = the j-th
          invocation of that action within that turn.  case["plans"] says which plans are run:
@@ -12,12 +17,12 @@ Faults : ONE CASE = ONE CONVERSATION x ALL ITS FAULT PLANS.  `prop` first runs t
              "pairs"    every single and every unordered pair of call sites                 (thorough tier, some v1 quick cases)
              [[site, ...], ...]   explicit plans (replay files of single plans)
          so the plan set is a pure function of the case (replays reproduce) and nothing is sampled.  The fault is an
-         `InjectedFault(RuntimeError)` or, per case (case["exc"], pool EXC_KINDS, 12 equally weighted families), any other
+         `InjectedFault(RuntimeError)` or, per case (case["exc"], pool EXC_KINDS, 13 equally weighted families), any other
          subclass of Exception: empty message, asyncio.TimeoutError, AssertionError, KeyError / LookupError / IndexError, a
          multi-line ValueError, UnicodeDecodeError, OSError, NotImplementedError (with / without message, a subclass),
          RecursionError, StopIteration / StopAsyncIteration (PEP 479 inside an `async def` action, as they are in a synchronous one), ArithmeticError /
-         ZeroDivisionError, AttributeError / TypeError, and two classes defined here (str() and repr() raise; non-string
-         args).  BaseException-only classes (CancelledError, KeyboardInterrupt) legitimately propagate: not generated.
+         ZeroDivisionError, AttributeError / TypeError, two classes defined here (str() and repr() raise; non-string
+         args) and three types of the LangChain hierarchy (LangChainException, OutputParserException, TracerException).  BaseException-only classes (CancelledError, KeyboardInterrupt) legitimately propagate: not generated.
          The exception is raised by the fake action through the harness hook `Session.should_fail` (overridden in
          `FaultSession` so that a site is addressed relative to its turn: an earlier fault that shortens a rail chain does not
          shift the address of a later site).  Only registered custom actions fail; the LLM never does (excluded by the statement).
@@ -82,7 +87,15 @@ RULE = (
     "one case = configuration (v1 ~80% / v2 ~20% in the quick tier, 2:1 in the thorough tier; 1-3 ordered input rails and 1-2 ordered output rails from {check, rewrite(v1), "
     "block-or-rewrite(v1), shipped self check}; dialog rails on/off/(v2) llm continuation; enable_rails_exceptions on/off; v2 rails in "
     "config.yml or hand-written; v1 retrieval rail 0/1; a custom dialog action on route act_llm) x conversation of 2-3 turns "
-    "(route and accept|reject|rewrite verdict per (rail, turn)) x implementation kind of every custom action (cfg['impl']: at least 1/4 of the generated cases "
+    "(route and accept|reject|rewrite verdict per (rail, turn)) x repetition of LLM text (drawn with nominal weight 2/5, measured 12-18% of the generated quick cases at seeds 1-3 because Hypothesis favours the earlier entries of a choice list: every later turn, with probability 3/4, "
+    "repeats verbatim the LLM message text(s) of the turn before it - same route, turn key repeat_llm - in half of them the user text is repeated verbatim too, and in "
+    "half of them one custom output rail gets a strict verdict (reject / rewrite) for the repeated text; in a faulted run the repeating turn receives the texts of the same "
+    "turn of the dry run; labels llm-repeats-text-of-previous-turn / llm-text-fresh-in-every-turn, llm-repeats-text-of-a-turn-with-strict-output-verdict, "
+    "user-repeats-question-verbatim, repeated-llm-text-after-faulted-turn, text-of-failed-output-rail-comes-back[-and-must-be-blocked-or-rewritten]; counters "
+    "fault.llm-text-repeated-in-later-turn, fault.output-rail-text-comes-back[.must-block-or-rewrite]; enumerated FIRST: 14 conversations = verdict rows of one custom output "
+    "rail {accept, strict, accept} and {strict, strict, accept}, every turn repeating the text of the one before, x 7 configurations (5 Colang 1.0 with 3 turns: general mode / "
+    "dialog action, rail exceptions, 1-2 output rails, check / block-or-rewrite / rewrite, retrieval rail; 2 Colang 2.x with 2 turns), user text repeated in every second one, single plans) "
+    "x implementation kind of every custom action (cfg['impl']: at least 1/4 of the generated cases "
     "keep every action the shared `async def` function, in the others each action draws one of 10 kinds in 5 families - async-function 5/19 (async def, "
     "bound async method), sync-function 6/19 (plain def 3, bound plain method 2, lambda 1), object-with-run 3/19 (class registered as a class, "
     "instance built without arguments), sync-returning-coroutine 1/19 (plain def handing back the coroutine of an async function), configured-instance 4/19 "
@@ -98,16 +111,16 @@ RULE = (
     "x ALL fault plans of that conversation: prop runs the conversation "
     "fault-free, takes every fake-action invocation of that dry run as a call site [action, turn, j-th call in the turn] and then "
     "re-runs the conversation once per plan with the case's exception raised at the plan's sites (case['exc']: the harness's RuntimeError "
-    "subclass with a one-line message, or one of the 21 other kinds of EXC_KINDS - 12 equally weighted families: plain-message, runtime-error "
+    "subclass with a one-line message, or one of the 24 other kinds of EXC_KINDS - 13 equally weighted families: plain-message, runtime-error "
     "(empty message, RecursionError), timeout, assertion, lookup (KeyError, LookupError, IndexError), value-error (multi-line ValueError, "
     "UnicodeDecodeError), os-error, not-implemented (NotImplementedError with / without message, a subclass), stop-iteration (StopIteration, "
-    "StopAsyncIteration inside the async action), arithmetic, attribute-or-type, harness-class (str()/repr() raise; non-string args); only "
+    "StopAsyncIteration inside the async action), arithmetic, attribute-or-type, harness-class (str()/repr() raise; non-string args), langchain (exception types of the LangChain hierarchy raised by the custom action: langchain_core.exceptions.LangChainException, OutputParserException, TracerException; last in the enumeration order EXC_ORDER so that earlier kinds keep their positions); only "
     "Exception subclasses, never BaseException-only ones; share visible in the labels raises-family=<family> and the counters cases.raises.<kind>) - every single site (plans='singles') "
     "and additionally every unordered pair of sites (plans='pairs': all thorough-tier cases and ~1/6 of the v1 quick cases); "
     "plans are enumerated inside prop, never sampled; their numbers are reported in coverage.counters (plans, plans.single, "
     "plans.pair, fault.<version>.<site class>, fault.turn>=2, next-turn-compared). Enumerated part: 10 all-accepting 3-turn conversations "
     "(every site class in every turn, both versions, plain fault, async def actions) + 2-turn all-accepting conversations with input-rail, output-rail and "
-    "dialog-action sites, single plans, covering the product exception kind (21) x implementation: Colang 1.0 every implementation kind (per exception kind two "
+    "dialog-action sites, single plans, covering the product exception kind (24) x implementation: Colang 1.0 every implementation kind (per exception kind two "
     "conversations whose 8 custom actions carry the 8 kinds, rotated with the exception kind), Colang 2.x every implementation family (per exception kind one "
     "conversation with 2 input rails, 2 output rails and the dialog action = one kind of each of the 4 families + a second synchronous function; kinds within a "
     "family and positions rotate) - so every (exception kind, implementation kind) pair and every (exception kind, implementation family, version) triple "
@@ -115,7 +128,7 @@ RULE = (
     "(a) 8 three-turn conversations `all accept / one rail rejects / all accept` with the dialog action in the first two turns, single plans: both versions x "
     "{instance-args, instance-config} x rejecting rail {input, output} (the rejecting category carries the kind, the other custom actions the other configured kind, "
     "`instance` or `class`; v1 with check + block-or-rewrite rails and 0/1 retrieval rail, v2 config.yml / hand-written; rail exceptions in 1 of 4), so an action of "
-    "either kind fails in turn k and has to block in turn k+1 and to accept in turn k+2; (b) every exception kind (21) x both configured kinds on Colang 1.0: "
+    "either kind fails in turn k and has to block in turn k+1 and to accept in turn k+2; (b) every exception kind (24) x both configured kinds on Colang 1.0: "
     "2-turn conversations with input rail, dialog action and output rail, the second turn rejected by the rail (input / output alternating) whose action carries the kind. "
     "Every generate call has its own deadline of 20 s (normal < 1 s); a call over the limit is repeated on fresh instances with 60 s and only then "
     "reported (generate-hangs), otherwise counted (generate-calls-over-limit-not-confirmed). evaluations counts cases (conversations), not plans. "
@@ -129,6 +142,8 @@ ASSUMPTIONS = [
     "an action registered as an object stays that object for the whole life of the LLMRails instance: 'the next turn is processed with all rails active' means the rails as the application configured them, so an instance built by anybody else without the application's constructor arguments (instance-config: nothing to enforce, approves everything; instance-args: cannot be built) is not the rail; on the unchanged tree such an object is never created - the harness only defines what it would do",
     "actions registered as a class / instance receive only the parameters the flow passes explicitly (no `context`), as the runtime does for every non-function action; the oracle does not use the context the fakes record",
     "'generate still returns normally' includes 'returns at all': a generate call that is still running after 20 s and, repeated on fresh LLMRails instances with the same history, after 60 s (normal: well under 1 s) is a hang; after such a call the LLMRails instances and the event loop are discarded (pipeline.reset_runtime)",
+    "a custom action that raises an exception type of the LangChain hierarchy (langchain_core.exceptions) is a failing custom action like any other: the exclusion of the statement is about failures of the LLM provider call made by the rails themselves, which the fakes never produce",
+    "the scripted LLM answers a repeated question with the same text whether or not an action failed before: a turn marked repeat_llm produces, in a faulted run, the message texts it produced in the fault-free run (also when the faulted earlier turn ended before the LLM was asked); rail verdicts belong to the turn, so the same text may be approved in one turn and has to be blocked or rewritten in the next",
     "the shipped self check rails are part of the rail pool but are not fault sites: their only failure mode is the LLM call",
     "Colang 2.x rails are generated in the guardrails-library convention only (`$allowed = await A(...)` / `if not $allowed` / refuse / abort); a rail testing `if $flagged` fails open by construction and is out of scope",
     "the caller keeps the conversation like the server does: v1 passes previous user messages and returned replies back as `messages`, v2 the returned `state`",
@@ -167,6 +182,12 @@ class StructuredError(Exception):
     """An exception whose args are not strings (an error code, a payload dict, None)."""
 
 
+def _lc(name):
+    import langchain_core.exceptions as lce  # (imported at use: the module is a dependency of the code under test)
+
+    return getattr(lce, name)
+
+
 # what the failing custom action raises: "for all exceptions" = any subclass of Exception, not only ones that carry a one-line
 # message.  BaseException-only classes (CancelledError, KeyboardInterrupt, SystemExit, GeneratorExit) legitimately propagate
 # and are not generated.  In an `async def` action "stopiter" exercises PEP 479 (the coroutine turns StopIteration into
@@ -192,17 +213,25 @@ EXC_KINDS = {
     "zerodiv": lambda: ZeroDivisionError("division by zero"),
     "attr": lambda: AttributeError("'NoneType' object has no attribute 'run'"),
     "type": lambda: TypeError("unsupported operand"),
+    # exception TYPES of the LangChain hierarchy (a custom action that uses an output parser / a chain of its own and lets the
+    # error out): still an exception raised by a custom action, not a failure of the LLM provider
+    "lc-parser": lambda: _lc("OutputParserException")("could not parse the moderation verdict"),
+    "lc-base": lambda: _lc("LangChainException")("chain failed"),
+    "lc-tracer": lambda: _lc("TracerException")("no run found"),
     # classes defined by the harness
     "badstr": UnprintableError,
     "args": lambda: StructuredError(503, {"detail": ["x", None]}, None),
 }
+# order of the kinds in the enumerated families and in the drawn pool: the kinds added later (LangChain hierarchy) come last, so the
+# earlier ones keep their positions (rotation of implementation kinds / configurations with the index)
+EXC_ORDER = sorted(k for k in EXC_KINDS if not k.startswith("lc-")) + ["lc-base", "lc-parser", "lc-tracer"]
 # families shown in the labels (raises-family=...)
 EXC_FAMILY = {
     "message": "plain-message", "empty": "runtime-error", "timeout": "timeout", "assert": "assertion", "key": "lookup", "lookup": "lookup",
     "index": "lookup", "multiline": "value-error", "unicode": "value-error", "oserror": "os-error", "notimpl": "not-implemented",
     "notimpl-bare": "not-implemented", "notimpl-sub": "not-implemented", "recursion": "runtime-error", "stopiter": "stop-iteration",
     "stopasync": "stop-iteration", "arith": "arithmetic", "zerodiv": "arithmetic", "attr": "attribute-or-type", "type": "attribute-or-type",
-    "badstr": "harness-class", "args": "harness-class",
+    "badstr": "harness-class", "args": "harness-class", "lc-parser": "langchain", "lc-base": "langchain", "lc-tracer": "langchain",
 }
 
 
@@ -212,6 +241,22 @@ class FaultSession(Session):
     def __init__(self, case, cfg=None):
         super().__init__(case, cfg)
         self.plan = {(a, int(t), int(j)) for a, t, j in case.get("plan", [])}
+        # message texts the LLM produced in the fault-free conversation, per turn (only given to faulted runs, see `_sub`)
+        self.script = {int(t): list(texts) for t, texts in (case.get("llm_script") or {}).items()}
+
+    def message_text(self, turn, k, body):
+        """A turn that REPEATS an earlier LLM text (turn key "repeat_llm") gets, in a faulted run, the n-th message text the
+        LLM produced in the same turn of the fault-free conversation: what the LLM answers to a question is a function of the
+        conversation script, not of whether an action failed earlier (the faulted earlier turn may have ended before the LLM
+        was asked at all - the user who retries still gets the text the LLM has for that question).  Turns that do not
+        repeat are untouched (fresh marker `LM{turn}C{k}Z`)."""
+        if turn < len(self.turns) and self.turns[turn].get("repeat_llm") is not None and turn in self.script:
+            n = len(self.message_texts.get(turn, []))
+            if n < len(self.script[turn]):
+                text = self.script[turn][n]
+                self.message_texts.setdefault(turn, []).append(text)
+                return text
+        return super().message_text(turn, k, body)
 
     def should_fail(self, action_name, k):
         entry = self.trace[-1]  # appended by fakes._enter just before this call
@@ -440,8 +485,11 @@ class _Deadline:
         return False
 
 
-def _sub(case, plan):
-    return {"config": case["config"], "turns": case["turns"], "api": case.get("api", "sync"), "plan": [list(s) for s in plan], "exc": case.get("exc", "message")}
+def _sub(case, plan, dry=None):
+    sub = {"config": case["config"], "turns": case["turns"], "api": case.get("api", "sync"), "plan": [list(s) for s in plan], "exc": case.get("exc", "message")}
+    if dry is not None and plan and any(spec.get("repeat_llm") is not None for spec in case["turns"]):
+        sub["llm_script"] = {t: list(texts) for t, texts in dry.session.message_texts.items()}
+    return sub
 
 
 def _turn(p, s, t, limit=GENERATE_LIMIT):
@@ -470,7 +518,7 @@ def _run(case, plan, fresh=False, dry=None, limit=GENERATE_LIMIT):
     self-contained JSON document and everything up to that point is the same deterministic computation); the observations of
     the skipped turns are the dry run's.  Colang 1.0 keeps its history in the instance's events cache, so it always re-runs
     the whole conversation; confirmation runs on fresh instances always run everything."""
-    sub = _sub(case, plan)
+    sub = _sub(case, plan, dry)
     try:
         p = pipeline.get_pipeline(sub["config"], fresh=fresh)
         s = p.new_session(sub, FaultSession)
@@ -572,7 +620,30 @@ def _case(draw, tier):
     # `async def` fake), the others draw one kind per action (drawn last: earlier draws keep their meaning)
     if draw(st.sampled_from(["mixed", "mixed", "mixed", "async"])) == "mixed":
         cfg = with_impl(cfg, [draw(st_impl_kind()) for _ in custom_actions(cfg)])
+    # the LLM repeats itself (drawn last): in 2 of 5 conversations a later turn gets, verbatim, the message text(s) the LLM produced
+    # in the turn before it - the user retries the question (half of the time with the very same user text) - so the text an action
+    # failed on (or that a rail blocked / approved normally) comes back as checked material of a turn of its own, whose verdicts are
+    # drawn like any other turn's or, half of the time, made strict for one custom output rail (block / rewrite the repeated text)
+    if draw(st.sampled_from(["fresh", "fresh", "fresh", "repeat", "repeat"])) == "repeat":
+        for t in range(1, len(turns)):
+            if not draw(st.sampled_from([True, True, True, False])):
+                continue
+            _repeat_turn(turns, t, same_user=draw(st.booleans()))
+            strict = draw(st.sampled_from(["as-drawn", "strict"]))
+            i = draw(st.integers(0, len(cfg["out"]) - 1))
+            if strict == "strict":
+                turns[t]["out"][i] = {"check": "reject", "self": "reject", "rewrite": "rewrite"}.get(cfg["out"][i]) or draw(st.sampled_from(["reject", "rewrite"]))
     return {"config": cfg, "turns": turns, "api": api, "plans": plans, "exc": exc}
+
+
+def _repeat_turn(turns, t, same_user=False):
+    """Turn t repeats turn t-1: same route, same LLM message text(s) (fakes turn key "repeat_llm"); `same_user`: the user text is
+    the one of turn t-1 too, marker included (turn key "umark" = the marker it carries)."""
+    turns[t]["route"] = turns[t - 1]["route"]
+    turns[t]["repeat_llm"] = t - 1
+    if same_user:
+        turns[t]["user"] = turns[t - 1]["user"]
+        turns[t]["umark"] = turns[t - 1].get("umark", t - 1)
 
 
 def st_impl_kind():
@@ -588,7 +659,7 @@ def st_exc_kind():
     """What the failing action raises: every family has the same weight (so none is diluted when the pool grows), the kinds of a
     family share it (families have 1, 2 or 3 kinds: 6 / size entries per kind in one flat list; "message" first = simplest)."""
     pool = []
-    for k in ["message"] + sorted(EXC_KINDS):
+    for k in ["message"] + EXC_ORDER:
         size = sum(1 for g in EXC_FAMILY.values() if g == EXC_FAMILY[k])
         pool += [k] * (6 // size)
     return st.sampled_from(pool)
@@ -612,6 +683,34 @@ def enumerate_cases(tier):
         (_mk_cfg(2, ["check", "check"], ["check"], "llmc", False), ["llm", "predef", "llm"]),
         (_mk_cfg(2, ["check"], ["check"], False, True), ["llm", "llm", "llm"]),
     ]
+    # placed first (cheap): the LLM REPEATS in turn k+1 the text of turn k (the user retries the question).  Verdict rows of the output
+    # rail that carries the row's name: accept / strict (the repeated text must be blocked or rewritten when it comes back after the
+    # turn whose action failed) / accept, and strict / strict / accept (it comes back after a turn the rail blocked normally as well);
+    # x configuration (general mode / dialog rails with the custom dialog action, rail exceptions, one or two output rails, v2 once per
+    # row) x the user text repeated verbatim or not.  Every single site.
+    rep_cfgs = [
+        (_mk_cfg(1, ["check"], ["check"], False, False), 0, "reject"),
+        (_mk_cfg(1, ["check"], ["check"], True, False), 0, "reject"),
+        (_mk_cfg(1, ["check"], ["check", "both"], True, True), 1, "reject"),
+        (_mk_cfg(1, ["rewrite"], ["both", "check"], True, False), 0, "rewrite"),
+        (_mk_cfg(1, ["check"], ["rewrite"], False, False, ret=1), 0, "rewrite"),
+        (_mk_cfg(2, ["check"], ["check"], True, False), 0, "reject"),
+        (_mk_cfg(2, ["check"], ["check", "check"], False, True, style="hand"), 1, "reject"),
+    ]
+    n = 0
+    for rows in (["accept", "strict", "accept"], ["strict", "strict", "accept"]):
+        for cfg, idx, strict in rep_cfgs:
+            n += 1
+            route = "act_llm" if cfg["dialog"] else "llm"
+            turns = []
+            for t, row in enumerate(rows if cfg["v"] == 1 else rows[:2]):
+                spec = {"user": f"{fakes.mk_user(t)} what is the status", "route": route, "in": ["accept"] * len(cfg["in"]), "out": ["accept"] * len(cfg["out"]), "body": "some answer"}
+                if row == "strict":
+                    spec["out"][idx] = strict
+                turns.append(spec)
+                if t:
+                    _repeat_turn(turns, t, same_user=n % 2 == 0)
+            yield {"config": cfg, "turns": turns, "api": "async" if n % 4 == 0 else "sync", "plans": "singles", "exc": "message" if n % 3 else "key"}
     for cfg, routes in core:
         turns = [
             {"user": f"{fakes.mk_user(t)} how is the weather", "route": r, "in": ["accept"] * len(cfg["in"]), "out": ["accept"] * len(cfg["out"]), "body": "some answer"}
@@ -630,7 +729,7 @@ def enumerate_cases(tier):
     rest = {3: _mk_cfg(1, ["both"], ["check"], True, True), 4: _mk_cfg(1, ["check", "both"], ["check"], True, False), 5: _mk_cfg(1, ["check", "check"], ["rewrite", "check"], True, False)}
     v2 = [_mk_cfg(2, ["check", "check"], ["check", "check"], True, False), _mk_cfg(2, ["check", "check"], ["check", "check"], True, True, style="hand")]
     fam = {f: [k for k in IMPL_ORDER if IMPL_KINDS[k] == f] for f in IMPL_KINDS.values()}
-    for i, kind in enumerate(sorted(EXC_KINDS)):
+    for i, kind in enumerate(EXC_ORDER):
         order = IMPL_ORDER[i % len(IMPL_ORDER):] + IMPL_ORDER[: i % len(IMPL_ORDER)]
         first = small[i % len(small)]
         n_first = len(custom_actions(first))
@@ -670,7 +769,7 @@ def enumerate_cases(tier):
                 yield {"config": with_impl(cfg, kinds), "turns": turns, "api": "async" if n % 3 == 0 else "sync", "plans": "singles", "exc": "message" if n % 2 else "timeout"}
     # ... and every exception kind of the pool x the two configured kinds (Colang 1.0; the dispatcher is the same for both versions):
     # 2-turn conversations, the second turn rejected by the input or the output rail, whose action failed in the first
-    for i, kind in enumerate(sorted(EXC_KINDS)):
+    for i, kind in enumerate(EXC_ORDER):
         cfg = _mk_cfg(1, ["check"], ["check"], True, i % 3 == 1)
         a, b = CONFIGURED_KINDS[i % 2], CONFIGURED_KINDS[(i + 1) % 2]
         blocked = ("in", "out")[(i // 2) % 2]
@@ -748,6 +847,7 @@ def _judge(case, dry, obs, plan):
     first_fault_turn = None
     reached = 0
     faulted_turns = []
+    out_fault_turns = set()  # turns in which an output-rail action failed on an LLM text
     classes_hit = set()
     hit_impl = set()
     for t, (spec, o, d) in enumerate(zip(case["turns"], obs.turns, dry.turns)):
@@ -779,6 +879,17 @@ def _judge(case, dry, obs, plan):
                     raise RuntimeError(f"harness: {what} precedes every fault but differs from the dry run: {_rail_sig(o)} / {_rail_sig(d)}; {_norm_reply(o)} / {_norm_reply(d)}")
                 continue
             count("next-turn-compared")
+            src = spec.get("repeat_llm")
+            if src is not None and src in faulted_turns and set(dry.session.message_texts.get(t, [])) & set(dry.session.message_texts.get(src, [])):
+                # the LLM text of this fault-free turn is the one it had for the faulted turn: it is checked material again
+                labels.add("repeated-llm-text-after-faulted-turn")
+                count("fault.llm-text-repeated-in-later-turn")
+                if src in out_fault_turns:
+                    labels.add("text-of-failed-output-rail-comes-back")
+                    count("fault.output-rail-text-comes-back")
+                    if any(e["cat"] == "out" and e.get("verdict") in ("reject", "rewrite") for e in d["trace"]):
+                        labels.add("text-of-failed-output-rail-comes-back-and-must-be-blocked-or-rewritten")
+                        count("fault.output-rail-text-comes-back.must-block-or-rewrite")
             if t == first_fault_turn + 1 or (faulted_turns and t == faulted_turns[-1] + 1):
                 labels.add("turn-after-fault-compared")
             if not same:
@@ -851,6 +962,7 @@ def _judge(case, dry, obs, plan):
                     labels.add("output-rail-fault-on-non-llm-text")
                     continue
                 needs_refusal = True
+                out_fault_turns.add(t)
                 labels.add("output-rail-fault-on-llm-text")
                 # (ii) the text the failed action was guarding is withheld
                 for ln in guarded:
@@ -962,6 +1074,15 @@ def prop(case):
     labels.add("impl:all-async-def" if set(impls.values()) == {"async"} else "impl:mixed")
     if any(any(x != "accept" for x in spec.get("in", []) + spec.get("out", [])) for spec in case["turns"]):
         labels.add("conversation-with-reject-or-rewrite")
+    if any(spec.get("repeat_llm") is not None for spec in case["turns"]):
+        labels.add("llm-repeats-text-of-previous-turn")
+        prev_strict = [t for t, spec in enumerate(case["turns"]) if spec.get("repeat_llm") is not None and any(x != "accept" for x in case["turns"][t - 1].get("out", []))]
+        if prev_strict:
+            labels.add("llm-repeats-text-of-a-turn-with-strict-output-verdict")
+        if any(spec.get("umark") is not None for spec in case["turns"]):
+            labels.add("user-repeats-question-verbatim")
+    else:
+        labels.add("llm-text-fresh-in-every-turn")
     counters = {"plans": 0, "plans.single": 0, "plans.pair": 0, "sites": len(sites), "runs": 1, "turns-executed": len(case["turns"]), "cases.raises." + case.get("exc", "message"): 1}
     for k in impls.values():
         counters["actions.impl." + k] = counters.get("actions.impl." + k, 0) + 1
@@ -978,7 +1099,7 @@ def prop(case):
             hang = first.kind == "generate-hangs"
             dry2 = _run(case, [], fresh=True)
             try:
-                _judge(case, dry2, _run(case, plan, fresh=True, limit=GENERATE_LIMIT_CONFIRM if hang else GENERATE_LIMIT), plan)
+                _judge(case, dry2, _run(case, plan, fresh=True, dry=dry2, limit=GENERATE_LIMIT_CONFIRM if hang else GENERATE_LIMIT), plan)
             except Violation:
                 raise
             if hang:
